@@ -7,6 +7,8 @@ An item key is a comma separated list of name=value pairs understood by the poll
   st    stale / repeated / finished-child wake-ups between polls (budget)
   sp    spurious polls (budget)                  ip  wake of another child's waker from inside a poll (budget)
   dr    drop of the combinator at any step (budget, terminal)     pa  one injected panic in a child's poll
+  sh    scripted streams report honest size hints (default 1; 0 = the default hint (0, None))
+  dw    budget: a leaf dropped inside a combinator's poll wakes a pending sibling from its destructor
   dev   deviation bound (absent = every choice free)              por 0 = explore every order of wake-ups
   nv    bitmask of children that never complete  al  bitmask of stream inputs that always have an item
   eg    bitmask of children that are never Pending                mi  stop after this many yielded items
@@ -91,7 +93,9 @@ def str_small(fams, tier, base=ALL3, **extra):
             if tier == "quick":
                 out += strm(fam, cont, 2, base, p=1, i=2, st=1, sp=1, **extra)
                 out += strm(fam, cont, 3, base, p=1, i=1, st=1, **extra)
+                out += strm(fam, cont, 2, base, p=1, i=2, sh=0, **extra)
             else:
+                out += strm(fam, cont, 2, base, p=2, i=2, sp=1, sh=0, **extra)
                 out += strm(fam, cont, 2, base, p=2, i=2, st=1, sp=1, ip=1, **extra)
                 out += strm(fam, cont, 3, base, p=1, i=2, st=1, sp=1, **extra)
                 out += strm(fam, cont, 3, base, p=2, i=1, st=1, **extra)
@@ -180,6 +184,11 @@ def groups_small(tier, fams=("fgroup", "sgroup"), base=A2, **extra):
             out += grp(fam, base, cap=cap, init=1, mm=4, ops=4, rs=1, p=1, i=i2, st=1, sp=1, dev=4 if quick else 5, **extra)
         out += grp(fam, base, iter=2, mm=4, ops=3, ext=1, rs=1, p=1, i=i1, st=1, sp=1, dev=4 if quick else 5, **extra)
         out += grp(fam, base, keyed=1, iter=1, mm=4, ops=3, ext=1, rs=1, p=1, i=i1, sp=1, dev=4 if quick else 5, **extra)
+        # extend / from_iter fed by an iterator without a size hint (nothing can be reserved up front)
+        out += grp(fam, base, iter=3, mm=5, ops=3, ext=2, rs=1, p=1, i=i1, dev=3 if quick else 4, **extra)
+        if not sg:
+            for cap in (0, 1, 2):
+                out += grp(fam, base, keyed=cap % 2, cap=cap, init=1 if cap else 0, mm=6, ops=3, ext=2, p=1, dev=3 if quick else 4, **extra)
     return out
 
 
@@ -230,9 +239,25 @@ def suite(prop, tier):
     return plan
 
 
+def dropwake_items(tier, **extra):
+    """a child that completes is dropped by most combinators inside their own poll; its destructor may wake a sibling"""
+    items = []
+    for fam in FUT_CONT:
+        for cont in FUT_CONT[fam]:
+            items += fut(fam, cont, 2, p=2, dw=1, sp=1, **extra)
+            items += fut(fam, cont, 3, p=1, dw=1, **extra)
+    for fam in STR_CONT:
+        for cont in STR_CONT[fam]:
+            items += strm(fam, cont, 2, p=1, i=1, dw=1, sp=1, **extra)
+            items += strm(fam, cont, 3, p=1, i=1, dw=1, **extra)
+    for fam in ("fgroup", "sgroup"):
+        items += grp(fam, init=2, mm=3, ops=1, p=1, i=1 if fam == "sgroup" else None, dw=1, **extra)
+    return items
+
+
 def plan_C01(tier):
     return {
-        "items": cross_cutting(tier),
+        "items": cross_cutting(tier) + dropwake_items(tier),
         "loom": {"scenarios": "all"},
         "bounds": "full enumeration: N<=3 children (4 in thorough), P<=2 Pending answers (3 thorough), I<=2 items, 1-2 stale/repeated wake-ups, 1 spurious poll, 1 in-poll wake of another child; "
                   "deviation bound d<=2 (3 thorough for N<=8) for tuples 5/8/12, arrays 8/23/65, Vecs 22..200; groups: histories of <=3 (5 thorough) operations over <=4 members; one level of nesting; "
@@ -244,6 +269,10 @@ def plan_C01(tier):
 def plan_C03(tier):
     items = cross_cutting(tier)
     items += co_small(tier, ["for_each", "try_for_each", "collect"], stacks=("", "m", "lt"), lm=1, tn=1, st=1)
+    for n in (11, 12, 16):
+        items += grp("sgroup", init=n, mm=n, ops=0, p=0, i=0)
+        items += grp("sgroup", keyed=1, init=n, mm=n + 1, ops=1, rm=0, p=1, i=0, dev=2)
+        items += grp("fgroup", init=n, mm=n + 1, ops=1, rm=0, p=1, dev=2)
     return {"items": items, "bounds": "as C01 (stale wake-ups aimed at finished children included) plus concurrent-stream drivers with 1 stale wake-up"}
 
 
@@ -457,7 +486,8 @@ def lone_survivor_items(kind, fam, tier):
     for cont, n in shapes:
         for j in range(n):
             nvp = ".".join(str(i) for i in range(n) if i != j)
-            kw = dict(nvp=nvp, p=1, sp=1)
+            # p=3: the survivor may stay Pending for several polls, so that later rotation starts are reached too
+            kw = dict(nvp=nvp, p=3, sp=1)
             if kind == "str":
                 kw["i"] = 1
             out += mk(fam, cont, n, **kw)
@@ -485,6 +515,8 @@ def plan_C11(tier):
     items += grp("fgroup", cap=2, init=2, mm=4, ops=3, rs=1, p=1, sp=1, dev=5 if quick else 7)
     for nv in (1, 2, 5):
         items += grp("fgroup", keyed=1, nv=nv, init=2, mm=4, ops=3, p=1, st=1, sp=1, dev=4 if quick else 5)
+    for n in (11, 16):
+        items += grp("fgroup", keyed=1, init=n, mm=n + 1, ops=1, rm=0, p=1, dev=2)
     if not quick:
         items += grp("fgroup", init=1, mm=4, ops=4, p=1, st=1, sp=1, dr=1, dev=6)
         items += grp("fgroup", keyed=1, init=0, mm=4, ops=8, p=1, ext=1, rs=1, dev=6)
@@ -502,6 +534,11 @@ def plan_C12(tier):
     items += grp("sgroup", cap=2, init=2, mm=4, ops=3, rs=1, p=1, i=1, sp=1, dev=5 if quick else 6)
     items += grp("sgroup", init=3, mm=3, ops=1, p=1, i=2, st=1, dev=5 if quick else 7)
     items += grp("sgroup", init=3, mm=3, ops=0, p=0, i=2)
+    # many members ending in the same poll (beyond the inline capacity of the key-removal queue), then refilled
+    for n in (11, 12, 16):
+        items += grp("sgroup", init=n, mm=n, ops=0, p=0, i=0)
+        items += grp("sgroup", keyed=1, init=n, mm=n + 1, ops=1, rm=0, p=1, i=0, dev=2)
+        items += grp("sgroup", init=n, mm=n, ops=0, p=0, i=1, ee=0, dev=1)
     for nv in (1, 2, 5):
         items += grp("sgroup", keyed=1, nv=nv, init=2, mm=4, ops=3, p=1, i=2, st=1, sp=1, dev=4 if quick else 5)
         items += grp("sgroup", nam=nv, na=1, init=2, mm=4, ops=3, p=1, i=2, st=1, sp=1, dev=4 if quick else 5)
@@ -540,6 +577,12 @@ def plan_C13(tier):
         items += co(src="stream", l=3, i=3, p=1, term="for_each", stack="lml", lm=a, lm2=b, wp=1, sw=0)
         items += co(src="vec", l=3, term="for_each", stack="ll", lm=a, lm2=b, wp=2)
         items += co(src="stream", l=3, i=3, p=0, term="for_each", stack="lel", lm=a, lm2=b, wp=2)
+    # a take(k) stacked on a limit(n) with k > n must not widen the limit
+    for (lm, tn) in ((1, 3), (2, 3), (2, 4)):
+        ln = 4 if tn == 4 else 3
+        for stack in ("lt", "lmt", "let"):
+            items += co(src="stream", l=ln, i=ln, p=0 if len(stack) > 2 else 1, term="for_each", stack=stack, lm=lm, tn=tn, wp=1, sw=0)
+        items += co(src="vec", l=ln, term="for_each", stack="lt", lm=lm, tn=tn, wp=2 if ln == 3 else 1)
     # never-completing closure futures: saturation and structured completion
     for wnv in (1, 2, 3):
         items += co(src="stream", l=3, i=3, p=1, term="for_each", stack="l", lm=2, wp=1, wnv=wnv)
@@ -569,6 +612,11 @@ def plan_C14(tier):
             items += co(src="stream", l=3, i=3, p=1, term=term, stack="l" if term == "try_for_each" else None, lm=lm, wp=2, sw=0)
         for stack in ("m", "e", "ml", "lm") + (("mel", "tl") if tier != "quick" else ()):
             items += co(src="stream", l=2, i=2, p=1, term=term, stack=stack, lm=1, tn=2, wp=1, dr=1)
+        # adapters between the limit and the fallible terminal must pass a Break upwards (back-pressure path)
+        for stack in ("lt", "tl", "lmt", "let"):
+            for lm in (1, 2):
+                items += co(src="stream", l=3, i=3, p=0 if len(stack) > 2 else 1, term=term, stack=stack, lm=lm, tn=3, wp=1, sw=0)
+            items += co(src="vec", l=3, term=term, stack=stack[:2] if stack[:2] in ("lt", "tl") else "lt", lm=1, tn=4, wp=2)
         for wnv in (1, 2):
             items += co(src="stream", l=3, i=3, p=1, term=term, stack="l", lm=2, wp=1, wnv=wnv)
             items += co(src="stream", l=3, i=3, p=1, term=term, stack=None, wp=1, wnv=wnv)
@@ -608,6 +656,18 @@ def plan_C15(tier):
         for stack in ("t", "mt", "tm", "et", "tl"):
             for tn in (0, 1, 2):
                 items += co(src="stream", l=3, i=3, p=1, term=term, stack=stack, tn=tn, lm=1, wp=1, sna=max(tn, 1), ee=0)
+    # take(n) with n far beyond the source length (up to usize::MAX): exactly the L source items are processed
+    for tn in (1 << 40, (1 << 63) - 1, (1 << 64) - 1):
+        for stack in ("t", "et", "tm"):
+            items += co(src="vec", l=2, term="collect", stack=stack, tn=tn, wp=1)
+            items += co(src="stream", l=2, i=2, p=1, term="collect", stack=stack, tn=tn, wp=1, ee=0)
+            items += co(src="stream", l=2, i=2, p=0, term="for_each", stack=stack, tn=tn, wp=1, sh=0)
+    # two takes with different counts in one stack: the smaller one decides, wherever it sits
+    for (a, b) in ((3, 1), (1, 3), (2, 1)):
+        for stack in ("tt", "tet", "tmt"):
+            for term in ("collect", "for_each"):
+                items += co(src="stream", l=3, i=3, p=0 if len(stack) > 2 else 1, term=term, stack=stack, tn=a, tn2=b, wp=1, sna=min(a, b), ee=0)
+            items += co(src="stream", l=3, i=3, p=1, term="try_for_each", stack=stack, tn=a, tn2=b, wp=1, ee=0)
     items += co(src="stream", l=0, i=0, p=1, term="collect", stack="me", wp=1)
     items += co(src="vec", l=0, term="collect", stack="m", wp=1)
     return {"items": items, "bounds": "every adapter stack of depth <=2 (3 thorough) over {map, enumerate, take(n), limit(m)} x terminal {collect, for_each, try_for_each} x source length {0,2,3} x all completion orders of the per-item futures (P<=1) x source readiness patterns; take n in {0,1,2,3,4}"}
